@@ -1,6 +1,7 @@
 package main
 
 import (
+	"encoding/json"
 	"fmt"
 	"os"
 	"path/filepath"
@@ -229,8 +230,17 @@ func runBatch(c *check, replay string) int {
 				// stamp the part name so that the replay finds its property
 				os.WriteFile(dst, stampEngine(bb, p.name), 0o644)
 			}
+			msg := v.Msg
+			if shown == 1 && os.Getenv("VERIF_NOSHRINK") == "" {
+				// structural reduction of the grammar of the smallest failing case
+				shrinkGrammar(c, p, env, dst, known, baseEnv)
+				var rf ev.ReplayFile
+				if bb, err := os.ReadFile(dst); err == nil && json.Unmarshal(bb, &rf) == nil && rf.Msg != "" {
+					msg = rf.Msg
+				}
+			}
 			fmt.Printf("VIOLATION property=%s replay=%s\n", c.id, dst)
-			fmt.Println(indent(v.Msg))
+			fmt.Println(indent(msg))
 			code = 1
 		}
 		for _, r := range results {
